@@ -259,8 +259,8 @@ def native_confirm(S, info):
         if s:
             cands.append(('$ (%sa) $\n' % s if key == 'lead' else '$ (a%s) $\n' % s, '(' if key == 'lead' else 'a', 'a' if key == 'lead' else ')', s))
     # embedded code next to other atoms (parenthesised literals lose their parentheses; no blank may appear or vanish)
-    cands += [('$#("kg")m$\n', '"kg"', 'm', ''), ('$#(2)!$\n', '2', '!', ''), ('$#(2) !$\n', '2', '!', ' '), ('$a#(2)$\n', 'a', '#', ''), ('$#(a)b$\n', 'a)', 'b', ''),
-              ('$#x y$\n', 'x', 'y', ' '), ('$#x;y$\n', 'x;', 'y', ''), ('$#f(1)g$\n', ')', 'g', ''), ('$#(1)+#(2)$\n', '1', '+', ''), ('$x_#(1)y$\n', '1', 'y', '')]
+    cands += [('$#("kg")m$\n', '"kg"', 'm', ''), ('$#(2)!$\n', '2)', '!', ''), ('$#(2) !$\n', '2', '!', ' '), ('$a#(2)$\n', 'a', '#', ''), ('$#(a)b$\n', 'a)', 'b', ''),
+              ('$#x y$\n', 'x', 'y', ' '), ('$#x;y$\n', 'x;', 'y', ''), ('$#f(1)g$\n', ')', 'g', ''), ('$#(1)+#(2)$\n', '1)', '+', ''), ('$x_#(1)y$\n', '1)', 'y', '')]
     cands += [('$ ( a\n) $\n', 'a', ')', '\n'), ('$ (\n a ) $\n', 'a', ')', ' '), ('$ (\n a ) $\n', '(', 'a', '\n '), ('$ ( a\n) $\n', '(', 'a', ' '),
               ('$ [ a +\n b\n] $\n', 'b', ']', '\n'),
               ('$ a b $\n', 'a', 'b', ' '), ('$ a\n b $\n', 'a', 'b', '\n '), ('$ ab $\n', 'a', 'b', ''), ('$ ( a ) $\n', '(', 'a', ' '), ('$ (a) $\n', '(', 'a', '')]
